@@ -53,7 +53,7 @@ fn build_universe(cfg: &Value) -> Rc<Universe> {
                 break;
             }
         }
-        let bh = bh.expect("tool error: no hasher seed realises the requested shift vector");
+        let bh = bh.unwrap_or_else(|| probe_failed("no hasher seed realises the requested shift vector"));
         let fs = learn_fs(m, k, &bh);
         let mut by_h: HashMap<(usize, usize), Vec<usize>> = HashMap::new();
         let mut keys = vec![];
@@ -81,7 +81,7 @@ fn build_universe(cfg: &Value) -> Rc<Universe> {
             pvs.push(pv);
         }
         if have < need {
-            panic!("tool error: key search did not realise every (h1, h2)");
+            probe_failed("key search did not realise every (h1, h2) pair of the hashing model");
         }
         Universe { m, k, bh, keys, pv: pvs, by_h }
     };
